@@ -64,9 +64,11 @@ SIGS = {
     "alsoProvides": ("gen_alsoProvides", [("object", "target")], ("interfaces", "list"), "state"),
     "noLongerProvides": ("gen_noLongerProvides", [("object", "target"), ("interface", "node")], None, "state"),
     "directlyProvidedBy": ("gen_directlyProvidedBy", [("object", "target")], None, "decl"),
+    # the statement of implementedBy() that installs the ClassProvides of a new class
+    "implementedBy_class_provides": ("gen_implementedBy_class_provides", [("cls", "target")], None, "state"),
 }
 DEFAULTS_OK = {"_classImplements_ordered": ["()", "()"]}
-ORDER = ["_add_interfaces_to_cls", "changed", "_classImplements_ordered", "classImplements", "classImplementsOnly",
+ORDER = ["_add_interfaces_to_cls", "implementedBy_class_provides", "changed", "_classImplements_ordered", "classImplements", "classImplementsOnly",
          "classImplementsFirst", "Provides", "directlyProvidedBy", "directlyProvides", "alsoProvides",
          "noLongerProvides"]
 COQ_TYPE = {"list": "list node", "node": "node", "spec": "node", "clsref": "kclsref", "target": "target",
@@ -195,6 +197,8 @@ class _Fn:
                 return e.id.replace("object", "object_"), self.env[e.id]
             if e.id == "_empty":
                 return "p_empty", "decl"
+            if e.id == "type":
+                return "RType", "clsref"
             _fail(e, "unknown name")
         if isinstance(e, ast.Constant) and e.value is None:
             _fail(e, "None outside an 'is None' test")
@@ -269,6 +273,10 @@ class _Fn:
         op, l, r = e.ops[0], e.left, e.comparators[0]
         neg = isinstance(op, (ast.IsNot, ast.NotIn))
         wrap = (lambda t: "(negb %s)" % t) if neg else (lambda t: t)
+        if isinstance(op, (ast.In, ast.NotIn)) and isinstance(l, ast.Constant) and l.value == "__provides__" \
+                and isinstance(r, ast.Attribute) and r.attr == "__dict__" and isinstance(r.value, ast.Name) \
+                and self.env.get(r.value.id) == "target":
+            return wrap("(p_has_own_provides s %s)" % r.value.id.replace("object", "object_")), "bool"
         if isinstance(op, (ast.In, ast.NotIn)):
             a = self.expr(l, "node")[0]
             b, kb = self.expr(r)
@@ -342,6 +350,12 @@ class _Fn:
                 if key == ("target", "__provides__"):
                     return "(p_getattr_provides s %s)" % a, "got"
                 _fail(e, "unsupported getattr")
+            if n == "getattr" and len(args) == 3 and isinstance(args[1], ast.Constant) and args[1].value == "__class__" \
+                    and ast.unparse(args[2]) == "type(%s)" % ast.unparse(args[0]):
+                a, k = self.expr(args[0])
+                if k != "target":
+                    _fail(e, "unsupported getattr")
+                return "(p_getattr_class s %s)" % a, "clsref"
             if n == "type" and len(args) == 1:
                 return "(p_type_of s %s)" % self.expr(args[0], "target")[0], "clsref"
             if n == "isinstance" and len(args) == 2 and isinstance(args[1], ast.Name):
@@ -362,10 +376,13 @@ class _Fn:
                 return "(p_hasattr_name %s)" % self.expr(args[0], "target")[0], "bool"
             if n == "Declaration" and len(args) == 1:
                 return "(p_declaration %s)" % self.expr(args[0], "list")[0], "decl"
-            if n == "ClassProvides" and len(args) >= 2 and isinstance(args[-1], ast.Starred) and len(args) == 3:
-                return "(p_new_class_provides s %s %s %s)" % (
+            if n == "ClassProvides" and len(args) == 3 and isinstance(args[2], ast.Starred):
+                return "(p_new_class_provides gen_add_interfaces_to_cls g s %s %s %s)" % (
                     self.expr(args[0], "target")[0], self.expr(args[1], "clsref")[0],
                     self.expr(args[2].value, "list")[0]), "prov"
+            if n == "ClassProvides" and len(args) == 2 and not any(isinstance(a, ast.Starred) for a in args):
+                return "(p_new_class_provides gen_add_interfaces_to_cls g s %s %s (@nil node))" % (
+                    self.expr(args[0], "target")[0], self.expr(args[1], "clsref")[0]), "prov"
             if n == "ProvidesClass" and len(args) == 1 and isinstance(args[0], ast.Starred):
                 return "(p_new_provides gen_add_interfaces_to_cls g s %s)" % self.expr(args[0].value, "key")[0], "prov"
             if n == "directlyProvidedBy" and len(args) == 1:
@@ -741,6 +758,25 @@ def _find(module):
             raise TranslationError("expected exactly one %s.%s, found %d (without it the inherited method runs)"
                                    % (cname, meth, len(fs)))
         found[meth] = fs[0]
+    # the statement of implementedBy that gives a new class its ClassProvides
+    fs = funcs_named(top, "implementedBy")
+    if len(fs) != 1:
+        raise TranslationError("expected exactly one module-level def implementedBy, found %d" % len(fs))
+    want = "isinstance(cls, type) and '__provides__' not in cls.__dict__"
+    ifs = [n for n in ast.walk(fs[0]) if isinstance(n, ast.If) and ast.unparse(n.test) == want]
+    sets = [n for n in ast.walk(fs[0]) if isinstance(n, (ast.Assign, ast.AugAssign, ast.AnnAssign))
+            and "__provides__" in ast.unparse(n.targets[0] if isinstance(n, ast.Assign) else n.target)]
+    if len(ifs) != 1 or len(sets) != 1 or ifs[0].orelse or len(ifs[0].body) != 1 or ifs[0].body[0] is not sets[0]:
+        raise TranslationError("implementedBy no longer installs cls.__provides__ in exactly one guarded statement "
+                               "'if %s: cls.__provides__ = ...'" % want)
+    if [a.arg for a in fs[0].args.args] != ["cls"]:
+        _fail(fs[0], "unexpected parameters of implementedBy")
+    synth = ast.FunctionDef(name="implementedBy_class_provides",
+                            args=ast.arguments(posonlyargs=[], args=[ast.arg(arg="cls")], vararg=None, kwonlyargs=[],
+                                               kw_defaults=[], kwarg=None, defaults=[]),
+                            body=[ifs[0]], decorator_list=[], returns=None, type_comment=None)
+    synth.lineno = ifs[0].lineno
+    found["implementedBy_class_provides"] = synth
     # the names the functions rely on are bound once, as expected
     binds = {}
     for n in ast.walk(module):
@@ -865,6 +901,12 @@ def translate_file(path):
 # and Properties/C01.v still have a kernel to compile against; the refusal itself is always
 # reported as an error (the theorems are then NOT about the current source).
 PINNED_SOURCE = r'''
+def implementedBy(cls):
+    if isinstance(cls, type) and '__provides__' not in cls.__dict__:
+        cls.__provides__ = ClassProvides(cls, getattr(cls, '__class__', type(cls)))
+    return spec
+
+
 class Declaration(Specification):
 
     @staticmethod
